@@ -8,7 +8,7 @@ CONSTANTS
   EmitLines = FALSE
   Big = 0
   Defects = {}
-INVARIANTS Consistent EndedIff TerminalWhenEnded NeverEndedIfInfinite
+INVARIANTS Consistent EndedIff TerminalWhenEnded NeverEndedIfInfinite PauseShape FrameRateFree
 PROPERTIES NoJump PauseRules EndedStable KeepsOthers
 VIEW View
 CHECK_DEADLOCK FALSE
